@@ -770,12 +770,13 @@ def trace(prog, lazy: set[int], style: str, sizes, seed, special=False):
     return vals, arrs, res
 
 
-def build_and_run(prog, lazy, arrs, res, vals_list):
-    """Build one model for the traced results and run it on each value tuple in `vals_list`."""
+def build_and_run(prog, lazy, arrs, res, vals_list, optimise: bool = True):
+    """Build one model for the traced results and run it on each value tuple in `vals_list` (`optimise=False`: with
+    onnxruntime's graph optimisations disabled, to tell a fault of the exported model from one of the optimiser)."""
     ins = {f"i{k}": arrs[k] for k in sorted(lazy)}
     outs = {f"o{j}": r for j, r in enumerate(res)}
     model = ndx.build(ins, outs)
-    sess = impl.session(model)
+    sess = impl.session(model, optimise=optimise)
     names = [o.name for o in sess.get_outputs()]
     all_out = []
     for vals in vals_list:
